@@ -21,6 +21,10 @@ through the whole skip-list lattice on the real `save(skip=...)` / `load(skip=..
           introspection, snapshotted before anything is saved, restored in place before every work item and compared after
           every history ("a save must not depend on earlier saves"; a changed mutable is a failure class of its own).
 
+  root kinds: besides the plain root, an attrs-style root and a hybrid root (AutoSerialize AND torch.nn.Module, with an
+          nn.Parameter, a persistent and a non-persistent buffer, a sub-module, a nested plain child, a nested hybrid child):
+          every member kind skipped by name at save / load / both, and by type at save; oracle = the unskipped load with
+          those members removed through the attribute protocol (hasattr, named_parameters / buffers / children, state_dict).
   spellings : the skip argument spelled as list (canonical), tuple, set, with duplicates, bare str, bare type, types
           first, generator - at save time and at load time, through AutoSerialize.save / load() and through
           Ptychography.save (the one override in the library that handles skip itself; found by a static scan) on a tiny
@@ -82,7 +86,8 @@ def type_of(name):
 
     return {
         "ndarray": np.ndarray, "Tensor": torch.Tensor, "int": int, "str": str, "float": float, "list": list, "dict": dict,
-        "bool": bool, "Inner": S.Inner, "Generator": np.random.Generator,
+        "bool": bool, "Inner": S.Inner, "Generator": np.random.Generator, "Parameter": torch.nn.Parameter, "Module": torch.nn.Module,
+        "Mid": S.Mid, "NodeA": S.NodeA, "HybridInner": S.HybridInner,
     }[name]
 
 
@@ -366,6 +371,175 @@ def eval_hybrid(item, seed=0, scratch="/tmp"):
     t.extra["hybrid_points_showing_the_known_defect"] += int(any(c.get("relation") == "skip_reaches_nested_object" for c, _ in f))
     for cls, msg in f:
         t.fail(cls, case, msg)
+    return t
+
+
+# ----------------------------------------------------------------------------- kinds of ROOT object
+# (i) plain AutoSerialize root: the lattice above. (ii) attrs-style root (__attrs_attrs__). (iii) hybrid root: a class
+# that is AutoSerialize AND torch.nn.Module, with plain values, an nn.Parameter, a persistent and a non-persistent
+# buffer, a sub-module, a nested plain child (sharing names with the root) and a nested hybrid child.
+# Oracle: the UNSKIPPED load of the same object, from which the skipped names (or the instances of the skipped types)
+# are removed through the object's own attribute protocol (delattr: Module.__delattr__ for registered members) at the
+# root and at nested plain levels. The comparison is made at the protocol level first (attributes, named_parameters,
+# named_buffers, named_children, state_dict), then value by value.
+ROOT_NAME_SETS = {
+    "hybrid": [["a"], ["arr"], ["w"], ["buf"], ["nbuf"], ["lin"], ["child"], ["hyb"], ["plain_t"], ["w", "buf"], ["a", "lin", "nbuf"], ["zzz"]],
+    "attrs": [["a"], ["arr"], ["child"], ["a", "t"], ["zzz"]],
+}
+ROOT_TYPE_SETS = {
+    "hybrid": [["Parameter"], ["Tensor"], ["Module"], ["Mid"], ["ndarray"], ["HybridInner"]],
+    "attrs": [["ndarray"], ["Tensor"], ["Mid"]],
+}
+
+
+def build_root(kind, seed):
+    import numpy as np
+    import torch
+
+    child = S.build(S.O("Mid", a=S.L("f0.5"), w=S.L("arr:i16:(3,)"), lin=S.L("s"), inner=S.O("NodeA", a=S.L("i-1"), buf=S.L("s"), arr=S.L("arr:f64:(3,)"))), seed)
+    if kind == "attrs":
+        return S.AttrsRoot(a=2**40, arr=S.make_array("i16", (2, 3), seed + 31), s="txt", t=torch.from_numpy(S.make_array("f64", (2, 2), seed + 32).copy()), lst=[1, "s"], child=child)
+    h = S.HybridRoot()
+    h.a = 2**40
+    h.s = "txt"
+    h.arr = S.make_array("i16", (2, 3), seed + 31)
+    h.plain_t = torch.from_numpy(S.make_array("f64", (2, 2), seed + 32).copy())
+    h.w = torch.nn.Parameter(torch.from_numpy(S.make_array("f32", (2, 3), seed + 33).copy()))
+    h.register_buffer("buf", torch.from_numpy(S.make_array("f32", (4,), seed + 34).copy()))
+    h.register_buffer("nbuf", torch.from_numpy(S.make_array("f32", (2,), seed + 35).copy()), persistent=False)
+    h.lin = S._linear(seed, 36)
+    h.child = child
+    k = S.HybridInner()
+    k.ha = 7
+    k.hw = torch.nn.Parameter(torch.from_numpy(S.make_array("f32", (2,), seed + 37).copy()))
+    h.hyb = k
+    return h
+
+
+def root_members(y):
+    """{name: kind} of the root as seen through its own attribute protocol."""
+    import torch
+
+    out = {}
+    if isinstance(y, torch.nn.Module):
+        internals = set(vars(torch.nn.Module()))
+        for k in vars(y):
+            if k not in internals:
+                out[k] = "plain"
+        for k, _ in y.named_parameters(recurse=False):
+            out[k] = "parameter"
+        for k, _ in y.named_buffers(recurse=False):
+            out[k] = "buffer"
+        for k, _ in y.named_children():
+            out[k] = "module"
+    else:
+        for k in vars(y):
+            out[k] = "plain"
+    return out
+
+
+def prune_root(ref, names, types):
+    """Remove, through the attribute protocol, what the skip lists name: at the root, at nested plain levels, and (by the
+    letter of the property) inside a nested hybrid child too. Returns the names removed at the root."""
+    import torch
+
+    removed = []
+    for k in sorted(root_members(ref)):
+        v = getattr(ref, k)
+        if k in names or (types and isinstance(v, types)):
+            delattr(ref, k)
+            removed.append(k)
+        elif isinstance(v, S.AutoSerialize) and not isinstance(v, torch.nn.Module):
+            prune(v, names, types)
+        elif isinstance(v, S.AutoSerialize):
+            prune_root(v, names, types)
+    return removed
+
+
+def run_root_kind(item, seed, scratch):
+    """One (root kind, store, skip content): names at save / load / both, or types at save. The unskipped save is made once."""
+    import torch
+
+    kind, store = item["root"], item["store"]
+    names, types = item.get("names", []), item.get("types", [])
+    tt = tuple(type_of(t) for t in types)
+    whens = ["save"] if types else ["save", "load", "both"]
+    fails, points = [], []
+    state_restore()
+    rel = "skip_at_hybrid_root" if kind == "hybrid" else "skip_at_attrs_root"
+    with S.Workdir(scratch, "C14") as wd:
+        pref = S.target(wd, store, "ref")
+        st = _save(build_root(kind, seed), pref, store, None)
+        if st[0] != "ok":
+            fails.append(({"relation": rel, "root": kind, "symptom": "save_raises", "exc": type(st[1]).__name__, "when": "none"}, f"{kind} root store={store}: the unskipped save raised {type(st[1]).__name__}: {str(st[1])[:200]}"))
+            return fails, points
+        for when in whens:
+            label = f"{kind} root store={store} when={when} skip names={names} types={types}"
+            st, ref = _load(pref, None)
+            if st != "ok":
+                fails.append(({"relation": rel, "root": kind, "symptom": "load_raises", "exc": type(ref).__name__, "when": "none"}, f"{label}: the unskipped load raised {type(ref).__name__}: {str(ref)[:200]}"))
+                break
+            before = root_members(ref)
+            removed = prune_root(ref, set(names), tt)
+            skip = _skip_arg(names, types)
+            if when == "load":
+                st, y = _load(pref, skip)
+            else:
+                p = S.target(wd, store, "s" + when)
+                st = _save(build_root(kind, seed), p, store, skip)
+                if st[0] == "ok":
+                    st = _load(p, skip if when == "both" else None)
+                st, y = st
+            base = {"relation": rel, "root": kind, "when": when, "by": "type" if types else "name"}
+            if st != "ok":
+                fails.append((dict(base, symptom=st, exc=type(y).__name__), f"{label}: {st.replace('_', ' ')} {type(y).__name__}: {str(y)[:200]}"))
+                points.append((when, [st], bool(removed)))
+                continue
+            want, got = root_members(ref), root_members(y)
+            points.append((when, sorted(got.items()), bool(removed)))
+            extra = sorted(set(got) - set(want))
+            missing = sorted(set(want) - set(got))
+            if extra or missing:
+                for n in extra:
+                    present = [w for w, ok in (("hasattr", hasattr(y, n)), ("state_dict", isinstance(y, torch.nn.Module) and any(k == n or k.startswith(n + ".") for k in y.state_dict()))) if ok]
+                    fails.append((dict(base, direction="not_removed", member_kind=got[n]), f"{label}: {got[n]} {n!r} is still present at the root after load ({', '.join(present)}); expected absent: it is {'named in skip' if n in names else 'an instance of a skipped type'}"))
+                for n in missing:
+                    fails.append((dict(base, direction="survivor_lost", member_kind=want[n]), f"{label}: {want[n]} {n!r} is missing at the root after load although it is not skipped (the unskipped load has it; root members before: {sorted(before)})"))
+                continue
+            recs = S.diff(ref, y, slack=False, root="root", limit=30)
+            nested_known = [r for r in recs if r["path"].startswith("root._modules['hyb']") and r["what"] in ("attr_set", "key_set") and not r.get("missing")]
+            other = [r for r in recs if r not in nested_known]
+            if nested_known:
+                fails.append(({"relation": "skip_reaches_nested_object", "nested_kind": "autoserialize_and_nn_module", "when": when, "what": nested_known[0]["what"], "direction": "not_removed", "root": kind, "by": base["by"]},
+                              f"{label}: inside the nested hybrid child root.hyb the skipped members are still present (stored whole by torch.save): {S.fmt(nested_known, 2)[:400]}"))
+            for r in other[:3]:
+                fails.append((dict(_cls(r, rel, when), root=kind, by=base["by"]), f"{label}: a survivor differs from the unskipped load (expected = unskipped load): {S.fmt([r])}"))
+    return fails, points
+
+
+def enumerate_root_kinds(quick):
+    items = []
+    kinds = ["hybrid"] + (["attrs"] if S.AttrsRoot is not None else [])
+    for kind in kinds:
+        for i, ns in enumerate(ROOT_NAME_SETS[kind]):
+            for st in (STORES if not quick else [STORES[i % 2]]):
+                items.append({"root": kind, "store": st, "names": ns})
+        for i, ts in enumerate(ROOT_TYPE_SETS[kind]):
+            for st in (STORES if not quick else [STORES[(i + 1) % 2]]):
+                items.append({"root": kind, "store": st, "types": ts})
+    return items
+
+
+def eval_root_kind(item, seed=0, scratch="/tmp"):
+    t = Tally()
+    fails, points = run_root_kind(item, seed, scratch)
+    for when, outcome, nontrivial in points:
+        t.case(key=["root_kind", item, when], nontrivial=nontrivial, outcome=outcome)
+        t.extra["root_kind_points"] += 1
+    for cls, msg in fails:
+        t.fail(cls, dict(item, family="root_kind", seed=seed), msg)
+    if item["root"] == "hybrid" and item.get("names") in (["w"], ["buf"]):
+        t.sample({"family": "root_kind", "root": item["root"], "store": item["store"], "names": item.get("names"), "whens": [p[0] for p in points], "observed": "absent through hasattr / named_parameters / named_buffers / named_children / state_dict; survivors equal the unskipped load" if not fails else f"{len(fails)} failure(s)"}, cap=1)
     return t
 
 
@@ -890,6 +1064,10 @@ def run(ctx):
     m2 = ctx.pmap(eval_types, titems, chunk=4, label="type lists", seed=ctx.seed, scratch=ctx.scratch)
     yitems = [{"names": n, "when": w, "store": st} for n in HYBRID_NAME_SETS for w in ("save", "load", "both") for st in STORES]
     m4 = ctx.pmap(eval_hybrid, yitems, chunk=1, label="hybrid nested object", seed=ctx.seed, scratch=ctx.scratch)
+    ritems = enumerate_root_kinds(ctx.quick)
+    m6 = ctx.pmap(eval_root_kind, ritems, chunk=1, label="root kinds", seed=ctx.seed, scratch=ctx.scratch)
+    if S.AttrsRoot is None:
+        ctx.seam_missing.append("the attrs package is not importable: the attrs-style root is not exercised")
     pitems = enumerate_spellings(ctx.quick)
     m5 = ctx.pmap(eval_spelling, pitems, chunk=1, label="skip spellings", seed=ctx.seed, scratch=ctx.scratch)
     overrides = find_save_load_overrides(ctx.repo)
@@ -905,6 +1083,11 @@ def run(ctx):
         bounds={"name_subsets": len(subs), "type_subsets_max_size": 2, "type_subsets": len(tsubs), "name_x_type_pairs": len(TYPE_NAMES) * len(UNIVERSE) * 2, "disjoint_pairs": npairs},
         relations=["skip_names (when=save: the recorded list is honoured by a plain load)", "load_time_equals_save_time", "skip_types",
                    "history:save_independent_of_earlier_saves", "history:from_file_attribute_names", "history:module_level_state_unchanged"],
+        root_kinds={
+            "roots": ["plain (the lattice)", "hybrid AutoSerialize + torch.nn.Module"] + (["attrs-style"] if S.AttrsRoot is not None else []),
+            "name_sets": ROOT_NAME_SETS, "type_sets_at_save": ROOT_TYPE_SETS, "when": ["save", "load", "both"], "items": len(ritems), "points": int(m6.extra["root_kind_points"]),
+            "hybrid_root_members": {k: v for k, v in sorted(root_members(build_root("hybrid", ctx.seed)).items())},
+        },
         skip_spellings={
             "entry_points_driven": ["AutoSerialize.save / load()", "Ptychography.save / load()"], "save_load_overrides_found_in_source": overrides,
             "overrides_with_a_skip_parameter_not_driven": undriven,
@@ -930,6 +1113,8 @@ def run(ctx):
         raise Broken(f"enumeration incomplete: {m1.extra['name_points']} name points, {m2.extra['type_points']} type points")
     if int(m3.extra["save_histories_autoserialize"]) + int(m3.extra["save_histories_ptychography"]) != len(hitems) or len(m3.outcomes) < 10:
         raise Broken(f"save-history enumeration degenerate: {dict(m3.extra)}, {len(m3.outcomes)} outcomes for {len(hitems)} histories")
+    if int(m6.extra["root_kind_points"]) < len(ritems):
+        raise Broken(f"root-kind family degenerate: {m6.extra['root_kind_points']} points for {len(ritems)} items")
     if undriven:
         ctx.seam_missing.append(f"save/load overrides with a skip parameter that this check does not drive: {undriven}")
     if int(m5.extra["spelling_points"]) < 3 * len(pitems):
@@ -945,6 +1130,21 @@ def run(ctx):
 def replay(ctx, case):
     seed = case.get("seed", ctx.seed)
     print(f"  graph: {S.show(GRAPH)}")
+    if case["family"] == "root_kind":
+        import importlib
+
+        for mn in STATE_MODULES:
+            importlib.import_module(mn)
+        state_snapshot()
+        fails, points = run_root_kind(case, seed, ctx.scratch)
+        for cls, msg in fails:
+            ctx.fail(cls, case, msg)
+        print(f"  root={case['root']} store={case['store']} names={case.get('names')} types={case.get('types')}")
+        print(f"  members of the built root: {sorted(root_members(build_root(case['root'], seed)).items())}")
+        for when, outcome, _ in points:
+            print(f"  when={when}: members after load {outcome}")
+        print(f"  expected: the skipped members absent through the attribute protocol, survivors equal to the unskipped load; observed: {len(fails)} failure(s)")
+        return
     if case["family"] == "spelling":
         import importlib
 
